@@ -63,7 +63,7 @@ def docs(rng, tier):
             yield D, tokgen.ttext(tokgen.tdoc(rng, 0, rng.choice([D - 1, D, D + 1, D + 2]), 3))
     # limits above the default, not powers of two (a level stack grown on demand has to stop at the limit, not at its
     # own capacity), with documents nested just below, at and a little beyond the limit
-    for D in ((33, 40, 65, 100, 129) if tier == "quick" else (33, 34, 40, 48, 63, 64, 65, 96, 100, 127, 128, 129, 200, 257, 1000, 4097)):
+    for D in ((33, 40, 65, 100, 129) if tier == "quick" else (33, 34, 40, 48, 63, 64, 65, 96, 100, 127, 128, 129, 200, 257)):
         for nest in (D - 2, D - 1, D, D + 1, D + 3, D + 7):
             yield D, tokgen.nested(rng, nest)
     for D in (1, 2, 32):
